@@ -34,6 +34,7 @@ func TestVerifC14(t *testing.T) {
 	}
 
 	p := &c14Parent{t: t, root: t.TempDir()}
+	p.canImm = vc14.CanImmutable(p.root)
 	defer p.close()
 	vutil.Main(t, p.gen, p.run)
 }
@@ -189,14 +190,14 @@ func c14Child(f []string) []string {
 
 		return []string{"ok"}
 	case "save":
-		return c14Save(f[1], f[2], f[3])
+		return c14Save(f[1], f[2], f[3], f[4])
 	default:
 		panic("unknown command " + f[0])
 	}
 }
 
 // c14Save performs one real update.  Answer: committed newLen finalOK oldSum newSum.
-func c14Save(variant, sizeS, seedS string) []string {
+func c14Save(variant, sizeS, seedS, probe string) []string {
 	size, _ := strconv.Atoi(sizeS)
 	seed, _ := strconv.ParseUint(seedS, 10, 64)
 	dest := c14c.dest
@@ -225,7 +226,7 @@ func c14Save(variant, sizeS, seedS string) []string {
 
 	var ok bool
 	var err error
-	vc14.Window(func() { ok, err = c14c.d.update(c14c.flt) })
+	vc14.WithFault(probe, dest, func() { vc14.Window(func() { ok, err = c14c.d.update(c14c.flt) }) })
 
 	committed := ok && err == nil
 	after, rerr := os.ReadFile(dest)
@@ -236,7 +237,7 @@ func c14Save(variant, sizeS, seedS string) []string {
 		finalOK = bytes.Equal(after, before) && vc14.FileSum(dest) == oldSum
 	}
 	// An abandoned update must say so: error for spoiled sources, none for "same".
-	if !committed && (variant == "ok" || variant == "same") && err != nil {
+	if !committed && (variant == "ok" || variant == "same") && (err != nil) != (probe == "faildir") {
 		finalOK = false
 	}
 
@@ -252,6 +253,8 @@ type c14Parent struct {
 	blk   int
 	w, tm string
 	dest  string
+
+	canImm bool
 }
 
 func (p *c14Parent) close() {
@@ -259,6 +262,7 @@ func (p *c14Parent) close() {
 		p.child.Stop()
 	}
 	_ = os.RemoveAll(c14ShmRoot())
+	vc14.ClearImmutable(p.root)
 }
 
 func c14ShmRoot() string { return "/dev/shm/verif-c14-filtering-" + strconv.Itoa(os.Getpid()) }
@@ -311,30 +315,38 @@ func (p *c14Parent) gen(r *rand.Rand, emit vutil.Emit) {
 			size := c14Size(r)
 			seed := r.Uint64N(1 << 40)
 			sz, sd := strconv.Itoa(size), strconv.FormatUint(seed, 10)
+			fault := ""
+			switch f := r.IntN(16); {
+			case f == 0 && p.canImm:
+				fault = "faildir"
+			case f == 1:
+				fault = "notmp"
+			}
+			probe := vc14.Probe(mode, fault)
 			switch v := r.IntN(20); {
 			case v < 11:
 				// A list without rules has checksum 0, as has a filter never loaded.
 				_, want := c14Body(size, seed, "")
 				empty := len(want) == 0
-				commit := !(empty && curEmpty)
-				emit("C14.save", "ok", sz, sd, vutil.B(commit), "0")
+				commit := !(empty && curEmpty) && fault != "faildir"
+				emit("C14.save", "ok", sz, sd, vutil.B(commit), "0", probe)
 				if commit {
 					curSize, curSeed, curEmpty = size, seed, empty
 				}
 			case v < 14:
 				if curEmpty {
-					emit("C14.save", "ok", "0", sd, "0", "0")
+					emit("C14.save", "ok", "0", sd, "0", "0", probe)
 				} else {
-					emit("C14.save", "same", strconv.Itoa(curSize), strconv.FormatUint(curSeed, 10), "0", "0")
+					emit("C14.save", "same", strconv.Itoa(curSize), strconv.FormatUint(curSeed, 10), "0", "0", probe)
 				}
 			case v < 16:
-				emit("C14.save", "bad", sz, sd, "0", "0")
+				emit("C14.save", "bad", sz, sd, "0", "0", probe)
 			case v < 17:
-				emit("C14.save", "toolong", sz, sd, "0", "0")
+				emit("C14.save", "toolong", sz, sd, "0", "0", probe)
 			case v < 18:
-				emit("C14.save", "html", sz, sd, "0", "0")
+				emit("C14.save", "html", sz, sd, "0", "0", probe)
 			default:
-				emit("C14.save", "missing", "0", sd, "0", "0")
+				emit("C14.save", "missing", "0", sd, "0", "0", probe)
 			}
 		}
 	}
@@ -363,7 +375,7 @@ func (p *c14Parent) run(f []string) []string {
 		return resp
 	case "C14.save":
 		rd := vc14.StartReader(p.dest)
-		resp, events, err := p.child.Do("save", f[1], f[2], f[3])
+		resp, events, err := p.child.Do("save", f[1], f[2], f[3], f[6])
 		if err != nil || len(resp) != 5 {
 			rd.Stop("", "")
 			if err != nil {
